@@ -33,24 +33,24 @@ theorem Good.of_restore {T : Table} {asm : Asm} {a b : Nat} {inner : Res} {P : P
       exact ⟨Post.refl _ _, fun h => by simp at h⟩
 
 section
-variable {T : Table} (hT : Ordered T) {rec : Rec} {asm : Asm} {st : List Nat} {a b : Nat}
-  (ha : FO T a) (hb : FO T b) (hrec : RecGood T rec (a + b)) (hinv : Inv T asm (a + b + 1))
+variable {T : Table} {μ : Nat → Nat} (hT : ChildLt T μ) {rec : Rec} {asm : Asm} {st : List Nat} {a b : Nat}
+  (ha : FO T a) (hb : FO T b) (hrec : RecGood T μ rec (μ a + μ b)) (hinv : Inv T μ asm (μ a + μ b + 1))
 include hT ha hb hrec hinv
 
 theorem unionLeft_good {vs : List Nat} (hta : T.types[a]? = some (.union vs)) :
     Good T (unionLeft Variant.current .all rec asm st a b vs) asm (Valid T a b) := by
   unfold unionLeft
   refine Good.of_restore (P := ∀ v ∈ vs, Valid T v b) ?_ (Valid.union_left hta)
-  refine allS_good T (m := a + b) vs (fun v hv s hs => ?_) _ hinv.cons
-  have hlt : v < a := ordered_children hT hta v (by simpa [Ty.children] using hv)
+  refine allS_good T (m := μ a + μ b) vs (fun v hv s hs => ?_) _ hinv.cons
+  have hlt : μ v < μ a := hT hta ha v (by simpa [Ty.children] using hv)
   exact hrec s st v b (ha.union hta v hv) hb (by omega) (hs.mono (by omega))
 
 theorem unionRight_good {vs : List Nat} (htb : T.types[b]? = some (.union vs)) :
     Good T (unionRight Variant.current rec asm st a b vs) asm (Valid T a b) := by
   unfold unionRight
   refine Good.of_restore (P := ∃ v ∈ vs, Valid T a v) ?_ (Valid.union_right htb)
-  refine anyS_good T (m := a + b) vs (fun v hv s hs => ?_) _ hinv.cons
-  have hlt : v < b := ordered_children hT htb v (by simpa [Ty.children] using hv)
+  refine anyS_good T (m := μ a + μ b) vs (fun v hv s hs => ?_) _ hinv.cons
+  have hlt : μ v < μ b := hT htb hb v (by simpa [Ty.children] using hv)
   exact hrec s _ a v ha (hb.union htb v hv) (by omega) (hs.mono (by omega))
 
 theorem tupleTuple_good {i1 i2 : Nat} (hta : T.types[a]? = some (.tuple i1))
@@ -74,14 +74,14 @@ theorem tupleTuple_good {i1 i2 : Nat} (hta : T.types[a]? = some (.tuple i1))
     split
     · rename_i hnl
       unfold tupleFields
-      refine (allS_good T (m := a + b) (R := fun p => p.1.1 = p.2.1 ∧ Valid T p.1.2 p.2.2) _
+      refine (allS_good T (m := μ a + μ b) (R := fun p => p.1.1 = p.2.1 ∧ Valid T p.1.2 p.2.2) _
         (fun p hp s hs => ?_) asm (hinv.mono (by omega))).imp
         (fun hz => Valid.tuple_tuple hta htb h1 h2 hnl.1 hnl.2 hz)
       have hp1 : p.1 ∈ info1.fields := (List.of_mem_zip hp).1
       have hp2 : p.2 ∈ info2.fields := (List.of_mem_zip hp).2
-      have hlt1 : p.1.2 < a := ordered_children hT hta _ (by
+      have hlt1 : μ p.1.2 < μ a := hT hta ha _ (by
         simp only [Ty.children, Table.fieldTypes, h1, List.mem_map]; exact ⟨p.1, hp1, rfl⟩)
-      have hlt2 : p.2.2 < b := ordered_children hT htb _ (by
+      have hlt2 : μ p.2.2 < μ b := hT htb hb _ (by
         simp only [Ty.children, Table.fieldTypes, h2, List.mem_map]; exact ⟨p.2, hp2, rfl⟩)
       split
       · rename_i hl
@@ -101,15 +101,15 @@ theorem tuplePart_good {c : Nat} {pn : Option Name} {pfs : List (Name × Nat)}
   · exact Good.const_false
   · rename_i hname
     unfold tuplePartFields
-    refine (allS_good T (m := a + b)
+    refine (allS_good T (m := μ a + μ b)
       (R := fun pf => ∃ cf ∈ ci.fields, cf.1 = some pf.1 ∧ Valid T cf.2 pf.2) pfs
       (fun pf hpf s hs => ?_) asm (hinv.mono (by omega))).imp
       (fun hf => Valid.tuple_part hta htb hc hname hf)
-    refine (anyS_good T (m := a + b) (R := fun cf => cf.1 = some pf.1 ∧ Valid T cf.2 pf.2) ci.fields
+    refine (anyS_good T (m := μ a + μ b) (R := fun cf => cf.1 = some pf.1 ∧ Valid T cf.2 pf.2) ci.fields
       (fun cf hcf s' hs' => ?_) s hs).imp id
-    have hlt1 : cf.2 < a := ordered_children hT hta _ (by
+    have hlt1 : μ cf.2 < μ a := hT hta ha _ (by
       simp only [Ty.children, Table.fieldTypes, hc, List.mem_map]; exact ⟨cf, hcf, rfl⟩)
-    have hlt2 : pf.2 < b := ordered_children hT htb _ (by
+    have hlt2 : μ pf.2 < μ b := hT htb hb _ (by
       simp only [Ty.children, List.mem_map]; exact ⟨pf, hpf, rfl⟩)
     split
     · rename_i hl
@@ -128,7 +128,7 @@ theorem partPart_good {n1 n2 : Option Name} {fs1 fs2 : List (Name × Nat)}
   · rename_i hname
     unfold partPartFields
     simp only [Variant.current, Bool.false_eq_true, if_false]
-    refine (allS_good T (m := a + b)
+    refine (allS_good T (m := μ a + μ b)
       (R := fun f2 => ∃ f1 ∈ fs1, f1.1 = f2.1 ∧ Valid T f1.2 f2.2) fs2
       (fun f2 hf2mem s hs => ?_) asm (hinv.mono (by omega))).imp
       (fun hf => Valid.part_part hta htb (by simpa using hname) hf)
@@ -138,9 +138,9 @@ theorem partPart_good {n1 n2 : Option Name} {fs1 fs2 : List (Name × Nat)}
       have hl : f1.1 = f2.1 := by
         have := List.find?_some hfind
         simpa using this
-      have hlt1 : f1.2 < a := ordered_children hT hta _ (by
+      have hlt1 : μ f1.2 < μ a := hT hta ha _ (by
         simp only [Ty.children, List.mem_map]; exact ⟨f1, hmem, rfl⟩)
-      have hlt2 : f2.2 < b := ordered_children hT htb _ (by
+      have hlt2 : μ f2.2 < μ b := hT htb hb _ (by
         simp only [Ty.children, List.mem_map]; exact ⟨f2, hf2mem, rfl⟩)
       exact (hrec s st _ _ (hf1 _ hmem) (hf2 _ hf2mem) (by omega) (hs.mono (by omega))).imp
         (fun hv => ⟨f1, hmem, hl, hv⟩)
@@ -164,9 +164,11 @@ theorem Valid.of_same_ty {T : Table} {a b : Nat} {ty : Ty} (ha : FO T a)
 
 /-- one unfolding of the relation is good on a first-order pair if the recursive call is good on
 all first-order pairs with a smaller id sum -/
-theorem relStep_good {T : Table} (hT : Ordered T) {rec : Rec} {asm : Asm} {st : List Nat} {a b : Nat}
+theorem relStep_good {T : Table} {μ : Nat → Nat} (hT : ChildLt T μ) {rec : Rec} {asm : Asm}
+    {st : List Nat} {a b : Nat}
     {ta tb : Ty} (ha : FO T a) (hb : FO T b) (hta : T.types[a]? = some ta)
-    (htb : T.types[b]? = some tb) (hrec : RecGood T rec (a + b)) (hinv : Inv T asm (a + b + 1)) :
+    (htb : T.types[b]? = some tb) (hrec : RecGood T μ rec (μ a + μ b))
+    (hinv : Inv T μ asm (μ a + μ b + 1)) :
     Good T (relStep Variant.current T .all rec asm st a b ta tb) asm (Valid T a b) := by
   obtain ⟨ta', hta', hfa, _, _⟩ := ha.unfold
   obtain ⟨tb', htb', hfb, _, _⟩ := hb.unfold
@@ -204,10 +206,14 @@ theorem relStep_good {T : Table} (hT : Ordered T) {rec : Rec} {asm : Asm} {st : 
       all_goals (simp only [relStep]; exact unionLeft_good hT ha hb hrec hinv hta)
   · exact other hta (fun vs h => hu ⟨vs, h⟩) hfa
 
+/-- on an ordered table the ids themselves are a measure -/
+theorem ChildLt.of_ordered {T : Table} (hT : Ordered T) : ChildLt T id :=
+  fun hty _ c hc => ordered_children hT hty c hc
+
 /-- `checkRel` in mode ALL is good on every first-order pair of an ordered table, whatever valid
 or pending assumptions it starts from. -/
-theorem checkRel_good {T : Table} (hT : Ordered T) :
-    ∀ (n bound : Nat), RecGood T (checkRel T .all n) bound := by
+theorem checkRel_good {T : Table} {μ : Nat → Nat} (hT : ChildLt T μ) :
+    ∀ (n bound : Nat), RecGood T μ (checkRel T .all n) bound := by
   intro n
   induction n with
   | zero =>
@@ -228,7 +234,7 @@ theorem checkRel_good {T : Table} (hT : Ordered T) :
         · simp at hle; omega
       · split
         · rename_i ta tb hta htb
-          exact relStep_good hT hx hy hta htb (ih (x + y)) hinv
+          exact relStep_good hT hx hy hta htb (ih (μ x + μ y)) hinv
         · exact Good.const_false
 
 end QM.Types
